@@ -156,7 +156,7 @@ func (ev *evalCtx) eval(e *Expr) Term {
 			if et == nil {
 				ev.fail("slice %s has unknown element type", e.Args[0])
 			}
-			ref := app("eref", app("s_arr", b.S), "(+ "+app("s_off", b.S)+" "+i.S+")")
+			ref := app("selem", b.S, i.S)
 			return ev.tr.loadRef(ev.cur, ref, et)
 		}
 		if b.Sort == "Str" {
